@@ -17,7 +17,7 @@ def main(seed=0, n=400):
     text += "Eval vm_compute in map f_to_Z %s.\n" % flist(zs)
     text += "Eval vm_compute in map f_floor %s.\n" % flist(zs)
     text += "Eval vm_compute in map f_bits %s.\n" % flist(bs)
-    text += "Eval vm_compute in map f_of_Z %s%%Z.\n" % zlist([int(z) for z in zs])
+    text += "Eval vm_compute in map f_of_Z %s.\n" % zlist([int(z) for z in zs])
     ok, out, err, secs = run_gen("selftest_floatfns", text)
     if not ok:
         print("coqc failed", err[-2000:]); return 1
